@@ -471,7 +471,15 @@ pub fn manyrecs(ctx: &Ctx) -> Stats {
         let mut rng = Rng::keyed(ctx.seed, "c05.manyrecs", idx);
         let k = rng.usize(1, 3);
         let nrec = rng.usize(1100, 7000);
-        let recs = many_records(&mut rng, nrec);
+        let mut recs = many_records(&mut rng, nrec);
+        if idx % 3 == 1 {
+            // one straggler: a record of 1.5-3 megabases among thousands of short ones (the worker that holds it falls
+            // thousands of records behind the others)
+            let at = [0usize, recs.len() / 2, 7][(idx / 3 % 3) as usize].min(recs.len());
+            let len = rng.usize(1_500_000, 3_000_000);
+            recs.insert(at, Rec { id: "straggler".into(), desc: None, seq: gen_seq(&mut rng, SeqClass::Uniform, len, true) });
+            st.class("one multi-megabase record among thousands of short ones");
+        }
         let norm = idx % 3 != 2;
         let cfg = OligoCfg {
             k,
